@@ -63,6 +63,11 @@ def abs_get_sequence_duration (_ : Env) (a : List Msg) : Except Err (List Msg ×
 /-- `RelativeSequence.is_empty()`: no note-on -/
 def rel_is_empty (_ : Env) (r : List Msg) : Except Err (List Msg × Bool) := .ok (r, !(r.any (·.ty == .noteOn)))
 
+/-- `AbsoluteSequence.equals(other, ignore_channel, ignore_time_signature, ignore_key_signature, ignore_velocity)`: the pairing helper sorts
+    the receiver's list in place (and the argument's; the argument's change is not tracked here) -/
+def abs_equals (e : Env) (a : List Msg) (b : List Msg) (ic its iks iv : Bool) : Except Err (List Msg × Bool) :=
+  .ok (sortAbs a, equalsAbs e.ppqn { ignoreCh := ic, ignoreTs := its, ignoreKs := iks, ignoreVel := iv } a b)
+
 /-- `Sequence(absolute_sequence, relative_sequence)` (`Sequence.__init__`, sequence.py:35-59): which of
     the two views is given decides the flags -/
 def seq_init (a r : Option (List Msg)) : Seq :=
